@@ -735,6 +735,27 @@ impl VerifBox for IdentityBox {
                 };
                 crate::transport::tcp::verif_c01_tcp::negotiate(d, l, dialed, flip)
             }
+            // the dialed-peer expectation through the real TcpTransport::open / dial, every address family
+            ["tp", rest @ ..] => {
+                let args = kv(rest);
+                let idx = |k: &str| args.get(k).and_then(|s| s.parse::<usize>().ok()).filter(|i| *i < KEYS);
+                let (Some(d), Some(l)) = (idx("d"), idx("l")) else { return "bad-op".into() };
+                let expected = match args.get("exp").copied() {
+                    Some("none") => None,
+                    Some(_) => match idx("exp") {
+                        Some(i) => Some(i),
+                        None => return "bad-op".into(),
+                    },
+                    None => return "bad-op".into(),
+                };
+                let (Some(via), Some(host)) = (args.get("via").copied(), args.get("host").copied()) else {
+                    return "bad-op".into();
+                };
+                if !["open", "dial"].contains(&via) || !["ip4", "ip6", "dns", "dns4", "dns6"].contains(&host) {
+                    return "bad-op".into();
+                }
+                crate::transport::tcp::verif_c01_tcp::transport_dial(via, host, d, l, expected)
+            }
             _ => "bad-op".into(),
         }
     }
